@@ -23,7 +23,9 @@ for d in sorted(glob.glob(os.path.join(ROOT, "seeded", "*", "meta.json"))):
     m = json.load(open(d))
     rp = os.path.join(os.path.dirname(d), "result.json")
     out = "not run yet"
-    if os.path.exists(rp):
+    if m.get("obsolete"):
+        out = "no longer a violation on the current tree: " + m["obsolete"]
+    elif os.path.exists(rp):
         r = json.load(open(rp))
         lines = [c["violation_line"] for c in r["checks"].values() if c["violation_line"]]
         out = "MISSED" if not r["caught"] else ("caught, replay names the correspondence (no-failing-input-found)"
